@@ -82,7 +82,7 @@ def mutants(props, tier="quick"):
     for patch in sorted(glob.glob(os.path.join(VERIF, "mutants", "*.diff"))):
         name = os.path.basename(patch)
         prop = name.split("-")[0]
-        if props and prop not in props:
+        if props and not any(name.startswith(p) for p in props):
             continue
         total += 1
         base = scratch_tree(patch)
